@@ -171,12 +171,21 @@ fn exhaustive_job(k: usize, fam_idx: usize, chunk: usize, chunks: usize, stride:
 fn random_job(ctx: &Ctx, job: usize, iters: u64) -> Stats {
     let mut st = Stats::new();
     let mut rng = Rng::stream(ctx.seed, "C04.random", job as u64);
-    for _ in 0..iters {
-        let env: BDDEnv<usize> = BDDEnv::new();
+    let mut env: BDDEnv<usize> = BDDEnv::new();
+    for it in 0..iters {
+        if it % 400 == 0 {
+            env = BDDEnv::new(); // long-lived enough for freed operand addresses to be reused
+        }
         let nvars = 4 + rng.usize(4);
         let uni = pick_labels(&mut rng, &LABEL_POOL, nvars);
         let t = random_table_subset(&mut rng, nvars as u32);
-        let d = build_in_env(&env, &t, &vars_of(&uni));
+        // half of the diagrams are not built by this environment (plain unshared nodes, dropped after use)
+        let d = if rng.chance(1, 2) {
+            st.bump("foreign_diagrams");
+            crate::conv::build_ref(&t, &vars_of(&uni))
+        } else {
+            build_in_env(&env, &t, &vars_of(&uni))
+        };
         let len = rng.usize(7);
         let list: Vec<usize> = (0..len).map(|_| *rng.pick(&uni)).collect();
         check_quant(&mut st, &env, &uni, &(d, t), &list, "random");
